@@ -51,9 +51,11 @@ type sessStep struct {
 }
 
 type sessBeh struct {
-	VerifyOnly bool       `json:"verifyonly"`
-	TxMgr      bool       `json:"txmgr"`
-	Steps      []sessStep `json:"steps"`
+	VerifyOnly bool `json:"verifyonly"`
+	TxMgr      bool `json:"txmgr"`
+	// set by harnesses that run several connections against one tx manager (not part of a behaviour)
+	sharedTxm *bitcoin_reader.TxManager
+	Steps     []sessStep `json:"steps"`
 }
 
 // ---------------------------------------------------------------------------- spies
@@ -143,6 +145,7 @@ var bchSplitHeader = func() *wire.BlockHeader {
 type inMsg struct {
 	cmd   string
 	nonce uint64
+	data  []byte // payload, kept for getdata only
 }
 
 type session struct {
@@ -172,6 +175,7 @@ type session struct {
 	patient bool // re-run of a session that diverged: every wait is eight times as long
 	tallyMu sync.Mutex
 	tally   map[string]int // every message received so far, by command
+	getdata [][]byte       // payloads of the getdata messages received so far
 
 	wanted        []byte // the requested block (payload of its block message)
 	blockCalls    int32
@@ -197,7 +201,9 @@ func newSession(beh *sessBeh, seed int64, big bool) *session {
 	s.peers = &spyPeers{StoragePeerRepository: bitcoin_reader.NewPeerRepository(storage.NewMockStorage(), "")}
 	cfg := bitcoin_reader.DefaultConfig()
 	s.node = bitcoin_reader.NewBitcoinNode("127.0.0.1:8333", "/verif:1/", cfg, s.repo, s.peers)
-	if beh.TxMgr {
+	if beh.sharedTxm != nil {
+		s.node.SetTxManager(beh.sharedTxm)
+	} else if beh.TxMgr {
 		s.txm = bitcoin_reader.NewTxManager(time.Hour)
 		s.proc = newCountingProcessor()
 		s.txm.SetTxProcessor(s.proc)
@@ -231,6 +237,9 @@ func newSession(beh *sessBeh, seed int64, big bool) *session {
 			m := inMsg{cmd: cmd}
 			if (cmd == "pong" || cmd == "ping") && len(payload) >= 8 {
 				m.nonce = binary.LittleEndian.Uint64(payload[:8])
+			}
+			if cmd == "getdata" {
+				m.data = payload
 			}
 			s.inbox <- m
 		}
@@ -269,6 +278,9 @@ func (s *session) collect(nonce uint64, d time.Duration, out map[string]int) (po
 				s.tally = map[string]int{}
 			}
 			s.tally[m.cmd]++
+			if m.cmd == "getdata" {
+				s.getdata = append(s.getdata, m.data)
+			}
 			s.tallyMu.Unlock()
 			if m.cmd == "pong" && m.nonce == nonce {
 				return true, false
